@@ -251,9 +251,13 @@ def riemann_states(draw, equal_gamma=None, allow_boost=True, min_pstar=1e-6):
     ul = 0.0 if (not allow_boost or draw(st.integers(0, 3)) == 0) else draw(uni(-3.0, 3.0)) * _csnd(pl, rl, gl)
     u_lo, u_hi, u_vac = riemann_boundaries(pl, rl, ul, gl, pr, rr, gr)
     al, ar = _csnd(pl, rl, gl), _csnd(pr, rr, gr)
-    target = draw(st.sampled_from(['SCS', 'MIX', 'MIX', 'RCR', 'STILL']))
+    target = draw(st.sampled_from(['SCS', 'MIX', 'MIX', 'RCR', 'STILL', 'EDGE']))
     f = draw(uni(0.03, 0.97))
-    if target == 'STILL':
+    if target == 'EDGE':
+        # next to a boundary between two wave patterns (one wave weak), on either side of it: where a slip in the pattern selection shows
+        ub = draw(st.sampled_from([u_lo, u_hi]))
+        ur = ub + draw(st.sampled_from([-1.0, 1.0])) * draw(logu(2e-3, 0.25)) * (u_hi - u_lo)
+    elif target == 'STILL':
         ur = ul
     elif target == 'SCS':
         # bound the shock strength: p*<~8 pmax: go at most ~2.2 c below u_lo
@@ -463,6 +467,8 @@ def radshock_params(draw, kind):
         p['Cv'] = 1.4472799784454e12 * draw(st.sampled_from([1.0, 0.5, 2.0]))
     if kind == 'nED' and draw(st.integers(0, 2)) == 0:
         p['sigS'] = draw(st.sampled_from([100.0, 300.0, 577.35]))      # scattering: total cross section != absorption cross section
+        if draw(st.booleans()):
+            p.update(expDensity_abs=1.0, expTemp_abs=-3.5)               # Kramers-like absorption next to constant (Thomson) scattering
     return p
 
 
@@ -523,7 +529,7 @@ def unit_vec(draw, dim):
 def ken1_params(draw):
     g = draw(st.sampled_from([2, 3]))
     return dict(geometry=g, D=draw(pos(1.0)), x_d=[draw(uni(-5.0, 5.0)) for _ in range(g)],
-                t_d=draw(st.one_of(st.just(0.0), uni(-2.0, 2.0))))
+                t_d=draw(st.one_of(st.just(0.0), uni(-2.0, 2.0), st.integers(-2, 3))))       # (an integer is a legitimate number too)
 
 
 @st.composite
